@@ -70,7 +70,7 @@ func (g *Gen) NumVal() string {
 	return g.pick([]string{"0", "1", "-1", "5", "10", "-7", "9223372036854775807", "-9223372036854775808", "9223372036854775800", "100", "a", "", "1.5", " 1", "007", "+5"})
 }
 func (g *Gen) FloatArg() string {
-	return g.pick([]string{"0", "1", "-1", "1.5", "0.25", "-0.5", "2.75", "10", "100.125", "-3", "abc", "", "3.0"})
+	return g.pick([]string{"0", "1", "-1", "1.5", "0.25", "-0.5", "2.75", "10", "100.125", "-3", "abc", "", "3.0", "inf", "-inf", "nan"})
 }
 func (g *Gen) caseMix(s string) string {
 	switch g.R.Intn(6) {
@@ -489,6 +489,9 @@ func (g *Gen) nextLifecycle() []string {
 	case 4:
 		return []string{"zadd", k, "1", g.pick([]string{"a", "b"})}
 	case 5, 6, 7:
+		if g.R.Intn(4) == 0 { // options, also with a non-positive time: a vetoed EXPIRE changes nothing
+			return []string{"expire", k, g.pick([]string{"1000", "2000", "0", "-1"}), g.pick([]string{"nx", "xx", "gt", "lt"})}
+		}
 		return []string{"expire", k, g.pick([]string{"1000", "2000"})}
 	case 8:
 		return []string{"lpop", k}
